@@ -125,6 +125,8 @@ func checkC09(w *World, r *Report) {
 	r.Rule("R09.3", "label / name limits", 4)
 	r.Rule("R09.5", "the name unescaper consumes every escape form whenever its bytes are there (no consuming step guarded more strictly than its width)", 1)
 	r.Rule("R09.4", "command table and cache-busting alphabet", 2)
+	r.Rule("R09.6", "the regular expressions that decide the width of an unescaping step are anchored at the start", 1)
+	ruleUnescaperRegexpsAnchored(w, r, "R09.6")
 
 	pairLayouts(w, r, "R09.1", "Request")
 	c09Header(w, r)
@@ -591,6 +593,8 @@ func checkC10(w *World, r *Report) {
 	c10Private(w, r)
 	c10NoWriteIntoCallerSlices(w, r)
 	c10NoPartialAnswerOnError(w, r)
+	r.Rule("R10.14", "no downstream codec cuts a response short: ascii85.Decode has worst-case room or its consumed count is checked", 1)
+	ruleAscii85Room(w, r, "R10.14")
 	r.Rule("R10.13", "the reassembly sorts the answer records by keys read from the records themselves (a comparator over a precomputed key slice does not follow the swaps)", 1)
 	ruleSortComparatorIndexesSortedSlice(w, r, "R10.13", func(p string) bool { return strings.HasPrefix(p, modPath+"/internal/streams/dns") })
 	r.Rule("R10.12", "answer records keep no recycled memory: what is taken from a sync.Pool is scratch space only (a record is packed after the wrapping function returned)", 1)
